@@ -483,7 +483,109 @@ def fold_database(ck: Checker, R: str):
     ck.check(not probs, R, dbm, dbm.func('CircuitsDatabase.get_by_raw_truth_table'), f'an in-memory database folded end to end: {len(stored)} normal-form circuits added, {n} tables looked up (1-{n_out[-1]} outputs over two inputs): '
              'the answer computes exactly the requested table on every output in order (through negation, reordering, duplicates), None exactly when the normal form is not stored; unnormalised circuits are refused',
              '; '.join(probs[:2]), construct='CircuitsDatabase add / lookup over all two-input tables')
-    ck.assume('the database is folded in memory over two-input tables; the shipped database files (2 x 349,724 entries) are data and are not analysed')
+    ck.assume('the database is folded in memory over two-input tables (lookups through the shipped files are not folded; their entries are sampled by C17.SHIP)')
+
+
+def fold_shipped(ck: Checker, R: str):
+    """The shipped database files, sampled (C17, first clause): the files are *data*; they are split into entries on the host
+    side following the layout of `binary_dict_io` (whose writer/reader pair C16 decides; the three width constants are read
+    from the tree), and the repository's `decode_circuit` is folded over a spread of entries of every key length.  Each decoded
+    circuit must be well formed, stay inside the basis the file is named after and compute exactly the truth table its key
+    spells (`_truth_table_to_label` folded on the computed table gives back the key), and the key must be a normal form."""
+    import lzma
+    repo = ck.repo
+    M = real_model(repo)
+    it = M.interp
+    it.real_super = True
+    from .compose_fold import state_values
+    dbm = repo.mod('cirbo.circuits_db.db')
+    enc = repo.mod('cirbo.circuits_db.circuits_encoding')
+    bio = repo.mod('cirbo.circuits_db.binary_dict_io')
+    du = repo.mod('cirbo.circuits_db.data_utils')
+    widths = []
+    for name in ('DICT_SIZE_BYTE_SIZE', 'DICT_KEY_BYTE_SIZE', 'DICT_VALUE_BYTE_SIZE'):
+        v = it.global_value(bio, name)
+        if not isinstance(v, int) or isinstance(v, bool) or not 1 <= v <= 8:
+            raise AnalysisError(f'{bio.rel}: {name} is not a small integer constant (layout of the dictionary file changed)')
+        widths.append(v)
+    W_N, W_K, W_V = widths
+    decode = RepoFunc(it, enc, enc.func('decode_circuit'))
+    to_label = RepoFunc(it, dbm, dbm.func('_truth_table_to_label'))
+    n_sample = 60 if ck.tier == 'quick' else 400
+    # per file: the gate types an entry may contain (the basis the file is named after; NOT/IFF are free)
+    bases = {'aig_db.bin.xz': {'INPUT', 'NOT', 'IFF', 'AND', 'OR', 'NAND', 'NOR', 'GT', 'LT', 'GEQ', 'LEQ', 'ALWAYS_TRUE', 'ALWAYS_FALSE'},
+             'xaig_db.bin.xz': {'INPUT', 'NOT', 'IFF', 'AND', 'OR', 'NAND', 'NOR', 'GT', 'LT', 'GEQ', 'LEQ', 'XOR', 'NXOR', 'ALWAYS_TRUE', 'ALWAYS_FALSE'}}
+    total = 0
+    for fname, allowed in bases.items():
+        path = repo.root / 'cirbo' / 'data' / fname
+        if not path.exists():
+            raise AnalysisError(f'shipped database file cirbo/data/{fname} is missing')
+        if fname not in open(du.path).read():
+            raise AnalysisError(f'{du.rel} no longer names {fname}')
+        raw = lzma.open(path, 'rb').read()
+        n = int.from_bytes(raw[:W_N], 'big')
+        pos = W_N
+        entries = []
+        try:
+            for _ in range(n):
+                kl = int.from_bytes(raw[pos:pos + W_K], 'big'); pos += W_K
+                key = raw[pos:pos + kl].decode('utf-8'); pos += kl
+                vl = int.from_bytes(raw[pos:pos + W_V], 'big'); pos += W_V
+                val = raw[pos:pos + vl]; pos += vl
+                if len(val) != vl:
+                    raise ValueError('truncated')
+                entries.append((key, val))
+        except (ValueError, UnicodeDecodeError) as e:
+            ck.bad(R, du, du.tree, f'cirbo/data/{fname} splits into entries under the layout of binary_dict_io', f'entry {len(entries)}: {e}', construct=f'shipped file {fname}')
+            continue
+        probs = []
+        if pos != len(raw):
+            probs.append(f'{len(raw) - pos} bytes follow the last of the {n} entries')
+        # a spread: the first entries, the longest values, and an even stride through the file, every key length represented
+        by_len = {}
+        for i, (k, v) in enumerate(entries):
+            by_len.setdefault(len(k), []).append(i)
+        pick = set(range(min(12, n)))
+        pick |= set(sorted(range(n), key=lambda i: -len(entries[i][1]))[:6])
+        stride = max(1, n // n_sample)
+        pick |= set(range(0, n, stride))
+        for idxs in by_len.values():
+            pick |= set(idxs[:3]) | set(idxs[-2:])
+        for i in sorted(pick):
+            key, val = entries[i]
+            total += 1
+            it.steps = 0
+            M.den.interp.steps = 0
+            try:
+                c = decode(val)
+            except InterpRaise as e:
+                probs.append(f'entry {i} (key {key}) does not decode: {e.exc_name}')
+                continue
+            d = c._d
+            inv = cm.invariant_problems(c)
+            if inv:
+                probs.append(f'entry {i} (key {key}) decodes to a malformed circuit: {inv[0]}')
+                continue
+            foreign = sorted({g.gate_type.var for g in d['_gates'].values()} - allowed)
+            if foreign:
+                probs.append(f'entry {i} (key {key}) of {fname} contains {foreign}, outside the basis of the file')
+                continue
+            ins = list(d['_inputs'])
+            table = [[state_values(c, dict(zip(ins, bits)))[o] for bits in itertools.product((False, True), repeat=len(ins))] for o in d['_outputs']]
+            it.steps = 0
+            label = to_label(table)
+            if label != key:
+                probs.append(f'entry {i} of {fname} is stored under {key} but decodes to a circuit computing {label}')
+                continue
+            rows = [tuple(r) for r in table]
+            if any(r and r[0] for r in rows) or rows != sorted(set(rows)):
+                probs.append(f'entry {i} of {fname}: key {key} is not a normal form (rows start with 0, strictly increasing)')
+            if len(probs) > 3:
+                break
+        ck.check(not probs, R, dbm, dbm.func('CircuitsDatabase.get_by_label'), f'shipped {fname}: {n} entries split under the dictionary layout, {len(pick)} of them (first, longest, an even stride, every key length) decoded by the folded decode_circuit: '
+                 'well formed, inside the basis of the file, computing exactly the table the key spells, key in normal form', '; '.join(probs[:2]), construct=f'shipped file {fname} (sampled entries)')
+    ck.notes['shipped_entries_decoded'] = total
+    ck.assume('the shipped database files are sampled (a spread of entries), not decoded completely; the sampled entries are decoded by the repository\'s decoder instantiated in the analyser')
 
 
 from .interp import Host as _Host
